@@ -734,8 +734,9 @@ func (s *Stage) cleanStrays(minAge time.Duration) {
 func (s *Stage) cleanWaiting() {
 	s.logDebug("Looking for wait loops ...")
 	var waiting []*finalFile
+	// The read lock must not be held any longer than this: fromCache below takes
+	// it again, and a recursive read lock blocks for good once a writer waits
 	s.cacheLock.RLock()
-	defer s.cacheLock.RUnlock()
 	for _, cacheFile := range s.cache {
 		if cacheFile.state != stateValidated ||
 			cacheFile.prev == "" {
@@ -743,6 +744,7 @@ func (s *Stage) cleanWaiting() {
 		}
 		waiting = append(waiting, cacheFile)
 	}
+	s.cacheLock.RUnlock()
 	sort.Slice(waiting, func(i, j int) bool {
 		return waiting[i].time.Before(waiting[j].time)
 	})
